@@ -1,20 +1,27 @@
 #!/usr/bin/env python3
-"""Regenerates MANIFEST.json from the table below (single source of truth for claimed checks)."""
-import json, os
+"""Regenerates MANIFEST.json.  A property is claimed iff harness/props/<id>.py defines a literal
+`CLAIM = {text, note, technique, ref}`; everything else is listed under not_applicable with the reason
+in NOT_CLAIMED below."""
+import ast, json, os
 HERE = os.path.dirname(os.path.dirname(os.path.abspath(__file__)))
 props = [json.loads(l) for l in open(os.path.join(HERE, "properties.jsonl"))]
 
-CLAIMED = {
- "C04": dict(
-   text="Coq theorem infer_sound: for every hierarchy, every limit k and every finite collection of values, each observed value is a member of the inferred type (both readings of Any); plus infer_well_formed. The model (Model/Infer.v) is tied to typing.py by a differential check whose verdicts (membership + multiset correspondence) are computed inside Coq.",
-   note="Trusted: Coq kernel + vm_compute; harness reifiers; typing's Union/==/hash semantics as modelled (union_mk, py_eqb). Totality and order/multiplicity invariance are checked by correspondence only so far.",
-   technique="Coq proof by nested induction over values/types + vm_compute differential correspondence", ref="4/C04"),
- "C07": dict(
-   text="Coq model of the generic traversal and all shipped rewriters (Model/Rewrite.v) with DEFAULT_REWRITER regenerated from source; theorems default_chain_modelled, noop_identity (monotonicity development pending); differential check over ~22k (rewriter chain, type) cases with Coq-evaluated verdicts: no exception, no witness value lost (tight reading in, annotation reading out), change only with trigger, model = implementation.",
-   note="Trusted: Coq kernel + vm_compute; harness; typing's Union/==/`is` semantics as modelled; live __mro__/__bases__ tables.",
-   technique="Coq model + theorems, vm_compute differential correspondence", ref="4/C07"),
-}
+NOT_CLAIMED = {}   # id -> reason (filled in when a property is deliberately not claimed)
+DEFAULT_REASON = "check under construction (DESIGN.md section 8); not yet claimed"
 
+
+def claim_of(pid):
+    p = os.path.join(HERE, "harness", "props", pid + ".py")
+    if not os.path.exists(p):
+        return None
+    for n in ast.parse(open(p).read()).body:
+        if isinstance(n, ast.Assign) and getattr(n.targets[0], "id", None) == "CLAIM":
+            return ast.literal_eval(n.value)
+    return None
+
+
+CLAIMED = {p["id"]: claim_of(p["id"]) for p in props}
+CLAIMED = {k: v for k, v in CLAIMED.items() if v and k not in NOT_CLAIMED}
 checks = []
 for p in props:
     i = p["id"]
@@ -31,20 +38,23 @@ for p in props:
             "level_note": c["note"],
             "technique": c["technique"],
         })
+hooks_path = os.path.join(HERE, "tools", "hooks.json")
+hooks = json.load(open(hooks_path)) if os.path.exists(hooks_path) else {
+    "guard": "MONKEYTYPE_VERIF",
+    "enable": "no source hooks are needed: the harness wraps tracer/logger/store objects from outside; MONKEYTYPE_VERIF is not read by /repo",
+    "baseline_off_cmd": "cd /repo && /venv/bin/python -m pytest -ra -q -p no:cacheprovider --timeout=900 --continue-on-collection-errors",
+    "source_commits": [], "add_only": True}
 m = {
  "version": 1,
  "setup_cmd": "./setup.sh",
- "hooks": {"guard": "MONKEYTYPE_VERIF",
-           "enable": "no source hooks are needed: the harness wraps tracer/logger/store objects from outside; MONKEYTYPE_VERIF is not read by /repo",
-           "baseline_off_cmd": "cd /repo && /venv/bin/python -m pytest -ra -q -p no:cacheprovider --timeout=900 --continue-on-collection-errors",
-           "source_commits": [], "add_only": True},
+ "hooks": hooks,
  "engines": [
    {"name": "coq-model-proofs", "path": "coq/", "serves_properties": sorted(CLAIMED),
     "kind_free_text": "Gallina models + theorems (Coq 8.16.1, stdlib only), correspondence verdicts by vm_compute; driven by harness/driver.py"},
  ],
  "checks": checks,
  "notes": "See DESIGN.md. ./check <id> [--tier quick|thorough] [--replay FILE]; known findings in known_findings.json.",
- "not_applicable": [{"property_id": p["id"], "reason": "check under construction in this session (DESIGN.md section 8); not yet claimed"}
+ "not_applicable": [{"property_id": p["id"], "reason": NOT_CLAIMED.get(p["id"], DEFAULT_REASON)}
                     for p in props if p["id"] not in CLAIMED],
 }
 json.dump(m, open(os.path.join(HERE, "MANIFEST.json"), "w"), indent=1)
